@@ -1101,3 +1101,7 @@ pub mod parser {
         }
     }
 }
+
+#[cfg(kani)]
+#[path = "/verif/kani/sciparse/hop_pattern.rs"]
+mod verif_hop_pattern;
